@@ -133,6 +133,10 @@ class ObjRun:
             return obj.to_likelihood(self.vals[step["names"][0]])
         if step.get("special") == "stacked":
             return obj._as_stacked()
+        if step.get("special") == "problem":
+            from cuqi.problem import BayesianProblem
+            self._last_bp = BayesianProblem(obj.likelihood, obj.prior)
+            return self._last_bp.posterior
         V = self.vals_alt if step.get("alt") else self.vals
         if step["how"] == "pos":
             return obj(*[V[n] for n in step["names"]])
@@ -501,6 +505,32 @@ class ObjRun:
         from cuqi.distribution import Posterior, JointDistribution, Distribution
         obj = o.obj
         self.ctx.fault("sampler_run_on_copy")
+        if op["sampler"] == "problem":
+            # the high-level interface: a BayesianProblem built from the two factors of a posterior, then asked for prior
+            # samples / posterior samples / a point estimate.  Neither the problem's own posterior nor the objects it was
+            # built from may behave differently afterwards.
+            if not isinstance(obj, Posterior):
+                posts = [o_ for o_ in self.pool if isinstance(o_.obj, Posterior) and
+                         not any(s_.get("special") == "problem" for s_ in o_.path)]
+                if not posts:
+                    return
+                o = posts[op.get("pick", 0) % len(posts)]
+                obj = o.obj
+            step = {"names": [], "how": "kw", "special": "problem"}
+            with core.quiet():
+                try:
+                    new = self.apply_cond(obj, step)
+                except core.SimCrash:
+                    raise
+                except Exception:
+                    return
+                bp = self._last_bp
+                if self.add(new, "derived", o.path + [step], o.fixed, o.root) is None:
+                    return
+                act = op.get("act", "sample_prior")
+                _try(lambda: bp.MAP() if act == "MAP" else getattr(bp, act)(6))
+            self.ctx.hit("problem_interface_" + act)
+            return
         with core.quiet():
             if isinstance(obj, Posterior) and op["sampler"] in ("MH", "LinearRTO", "legacyMH"):
                 def go():
@@ -851,7 +881,8 @@ def gen_case(r, tier):
         elif x < 0.76:
             ops.append({"op": "recondition_many", "on": on, "times": r.choice([200, 500, 2000]), "pick": r.randrange(1000)})
         elif x < 0.82:
-            ops.append({"op": "sampler", "on": on, "sampler": r.choice(["MH", "LinearRTO", "legacyMH", "HybridGibbs"])})
+            ops.append({"op": "sampler", "on": on, "sampler": r.choice(["MH", "LinearRTO", "legacyMH", "HybridGibbs", "problem", "problem"]),
+                        "pick": r.randrange(100), "act": r.choice(["sample_prior", "sample_prior", "sample_posterior", "MAP"])})
         elif x < 0.90:
             ops.append({"op": "special", "on": on, "what": r.choice(["to_likelihood", "stacked"])})
         elif x < 0.915:
